@@ -236,3 +236,180 @@ Proof.
   - apply end_count.
   - pose proof (map_count_le f kvs Hw). lia.
 Qed.
+
+(* ---- extractWitnessComponentOffsets ---- *)
+Definition script_type (key : N) : option N :=
+  if (key =? 1)%N then Some 0%N else if (key =? 3)%N then Some 1%N else if (key =? 6)%N then Some 2%N
+  else if (key =? 7)%N then Some 3%N else if (key =? 8)%N then Some 4%N else None.
+
+Definition wit_spec (base hs pos : nat) (kv : item * item) : list comp :=
+  match fst kv with
+  | UInt _ key =>
+      let abs := base + hs + (pos + length (enc (fst kv))) in
+      let value := enc (snd kv) in
+      let scripts ty := map (CScript ty) (script_offsets value abs) in
+      if (key =? 4)%N then map CDatum (datum_offsets value abs)
+      else if (key =? 5)%N then map (fun kr => CRedeemer (fst kr) (snd kr)) (redeemer_offsets value abs)
+      else if (key =? 1)%N then scripts 0%N
+      else if (key =? 3)%N then scripts 1%N
+      else if (key =? 6)%N then scripts 2%N
+      else if (key =? 7)%N then scripts 3%N
+      else if (key =? 8)%N then scripts 4%N
+      else []
+  | _ => []
+  end.
+
+Lemma witness_components_spec f kvs base : wf (Map f kvs) -> size_ok (Map f kvs) -> uint_keys (Map f kvs) = true ->
+  witness_components (enc (Map f kvs)) base = spec_run enc_kv (wit_spec base (hdr_size f)) 0 kvs.
+Proof.
+  intros Hw Hsz Hk. cbn [uint_keys] in Hk. pose proof (size_ok_map _ _ Hw Hsz) as Hcnt.
+  unfold witness_components.
+  destruct (Nat.ltb_spec (length (enc (Map f kvs))) 2) as [Hlt|_].
+  { assert (kvs = []).
+    { rewrite enc_length_map in Hlt. pose proof (hdr_size_pos f).
+      destruct kvs as [|[k v] r]; [reflexivity|]. exfalso. cbn [unpair flat_map] in Hlt. rewrite !app_length in Hlt.
+      destruct (wf_kv_in f ((k, v) :: r) k v Hw (or_introl eq_refl)) as [Hk' Hv'].
+      pose proof (enc_nonempty k Hk'). pose proof (enc_nonempty v Hv'). lia. }
+    subst kvs. reflexivity. }
+  rewrite run_scan_map by assumption. apply scan_all.
+  - intros [k v] p more Hin. destruct (wf_kv_in _ _ _ _ Hw Hin) as [Hwk Hwv].
+    rewrite forallb_forall in Hk. specialize (Hk _ Hin). cbn [fst] in Hk.
+    destruct k as [fk n| | | | | | | | | | ]; try discriminate.
+    unfold enc_kv, witness_step, wit_spec. cbn [fst snd]. rewrite <- app_assoc.
+    rewrite sd_uint_enc by exact Hwk. rewrite parse_full_enc by exact Hwv. rewrite consumed_app, app_length. reflexivity.
+  - intros kv Hin. eapply kv_no_break; eauto.
+  - apply end_break.
+  - apply end_count.
+  - pose proof (map_count_le f kvs Hw). lia.
+Qed.
+
+Lemma walk_in xs : forall pos r, In r (walk pos (map enc xs)) ->
+  exists m x, nth_error xs m = Some x /\ r = (pos + length (flat_map enc (firstn m xs)), length (enc x)).
+Proof.
+  induction xs as [|a l IH]; intros pos r H; [destruct H|]. cbn [map walk] in H. destruct H as [<-|H].
+  - exists 0, a. cbn. rewrite Nat.add_0_r. auto.
+  - apply IH in H. destruct H as (m & x & Hn & ->). exists (S m), x. cbn [nth_error firstn flat_map].
+    rewrite app_length. split; [exact Hn|]. f_equal. lia.
+Qed.
+
+Definition is_arr (x : item) : bool := match x with Arr _ _ => true | _ => false end.
+(* witness set: a map with unsigned keys; plutus data (4) and the script lists
+   (1, 3, 6, 7, 8) are arrays, possibly inside tag wrappers (258 = set);
+   redeemers (5) are the Alonzo list form or the Conway map form *)
+Definition wit_shape (w : item) : bool :=
+  match w with
+  | Map _ kvs =>
+      forallb (fun kv => match fst kv with
+                         | UInt _ key =>
+                             if (key =? 4)%N then is_arr (strip_tags (snd kv))
+                             else if (key =? 5)%N then red_arr_shape (snd kv) || red_map_shape (snd kv)
+                             else match script_type key with Some _ => is_arr (strip_tags (snd kv)) | None => true end
+                         | _ => false end) kvs
+  | _ => false
+  end.
+
+(* which decoded component of the witness set w a reported entry c stands for *)
+Definition comp_in (w : item) (c : comp) (x : item) : Prop :=
+  exists f kvs j fk key v, w = Map f kvs /\ nth_error kvs j = Some (UInt fk key, v) /\
+    match c with
+    | CDatum _ => key = 4%N /\ exists fa ds, strip_tags v = Arr fa ds /\ In x ds
+    | CScript ty _ => script_type key = Some ty /\ exists fa ss, strip_tags v = Arr fa ss /\ In x ss
+    | CRedeemer rk _ => key = 5%N /\
+        ((exists fa rs r p i o, v = Arr fa rs /\ In r rs /\ red_elem r = Some (p, i, o, x) /\ rk = mk_key p i) \/
+         (exists fa es e p i o, v = Map fa es /\ In e es /\ red_entry e = Some (p, i, o, x) /\ rk = mk_key p i))
+    end.
+
+Lemma located_eq B a b x : a = b -> located B a x -> located B b x.
+Proof. intros <-. auto. Qed.
+
+Lemma uint_keys_of_shape w : wit_shape w = true -> uint_keys w = true.
+Proof.
+  destruct w; try discriminate. cbn [wit_shape uint_keys]. intros H. rewrite forallb_forall in *. intros kv Hin.
+  specialize (H kv Hin). destruct (fst kv); try discriminate. reflexivity.
+Qed.
+
+Theorem witness_components_exact B base w : wf w -> size_ok w -> wit_shape w = true -> located B base w ->
+  forall c, In c (witness_components (enc w) base) -> exists x, range_is B (comp_range c) x /\ comp_in w c x.
+Proof.
+  intros Hw Hsz Hsh HL c Hc. pose proof (uint_keys_of_shape w Hsh) as Hk.
+  destruct w as [| | | | | | |f kvs| | | ]; try discriminate.
+  rewrite (witness_components_spec f kvs base Hw Hsz Hk) in Hc.
+  apply spec_run_in in Hc. destruct Hc as (j & [k v] & Hj & Hc).
+  cbn [wit_shape] in Hsh. pose proof (forallb_nth _ _ _ _ Hsh Hj) as Hs1. cbn [fst snd] in Hs1.
+  destruct k as [fk key| | | | | | | | | | ]; try discriminate.
+  assert (Hin : In (UInt fk key, v) kvs) by (eapply nth_error_In; eauto).
+  destruct (wf_kv_in _ _ _ _ Hw Hin) as [Hwk Hwv].
+  set (abs := base + (entry_off f kvs j + length (enc (UInt fk key)))).
+  assert (Lv : located B abs v) by (apply (located_map_value B base f kvs j _ v HL Hj)).
+  assert (Sv : size_ok v) by (eapply size_ok_located; [apply (located_map_value _ 0 f kvs j _ v (located_self _) Hj)|exact Hsz]).
+  unfold wit_spec in Hc. cbn [fst snd] in Hc.
+  assert (Eabs : base + hdr_size f + (0 + length (flat_map enc_kv (firstn j kvs)) + length (enc (UInt fk key))) = abs)
+    by (unfold abs, entry_off; lia).
+  rewrite Eabs in Hc. clear Eabs.
+  (* the located array inside tag wrappers *)
+  assert (Larr : forall fa xs m x, strip_tags v = Arr fa xs -> nth_error xs m = Some x ->
+            located B (abs + (tag_size v + hdr_size fa) + length (flat_map enc (firstn m xs))) x).
+  { intros fa xs m x Es Hm. pose proof (located_trans _ _ _ _ _ Lv (located_strip v)) as L1. rewrite Es in L1.
+    pose proof (located_arr_child _ _ _ _ _ _ L1 Hm) as L2. unfold child_off in L2.
+    eapply located_eq; [|exact L2]. lia. }
+  assert (Scripts : forall ty, script_type key = Some ty -> In c (map (CScript ty) (script_offsets (enc v) abs)) ->
+            exists x, range_is B (comp_range c) x /\ comp_in (Map f kvs) c x).
+  { intros ty Hty Hcs. rewrite Hty in Hs1.
+    assert (Hs4 : (if (key =? 4)%N then is_arr (strip_tags v) else if (key =? 5)%N then red_arr_shape v || red_map_shape v else is_arr (strip_tags v)) = true) by exact Hs1.
+    assert (Ha : is_arr (strip_tags v) = true).
+    { unfold script_type in Hty. destruct (N.eqb_spec key 4) as [->|]; [discriminate|]. destruct (N.eqb_spec key 5) as [->|]; [discriminate|exact Hs4]. }
+    destruct (strip_tags v) as [| | | | | |fa ss| | | | ] eqn:Es; try discriminate.
+    rewrite (script_offsets_spec v abs fa ss Hwv Sv Es) in Hcs. apply in_map_iff in Hcs. destruct Hcs as (r & <- & Hr).
+    apply walk_in in Hr. destruct Hr as (m & x & Hm & ->). exists x. split.
+    - split; [|reflexivity]. cbn [comp_range fst]. apply (Larr fa ss m x eq_refl Hm).
+    - exists f, kvs, j, fk, key, v. repeat split; auto. exists fa, ss. split; [exact Es|eapply nth_error_In; eauto]. }
+  destruct (N.eqb_spec key 4) as [->|N4].
+  { (* datums *)
+    destruct (strip_tags v) as [| | | | | |fa ds| | | | ] eqn:Es; try discriminate.
+    rewrite (datum_offsets_spec v abs fa ds Hwv Sv Es) in Hc. apply in_map_iff in Hc. destruct Hc as (r & <- & Hr).
+    apply spec_run_in in Hr. destruct Hr as (m & x & Hm & Hr). destruct Hr as [<-|[]]. exists x. split.
+    - split; [|reflexivity]. cbn [comp_range fst]. eapply located_eq; [|apply (Larr fa ds m x eq_refl Hm)]. lia.
+    - exists f, kvs, j, fk, 4%N, v. repeat split; auto. exists fa, ds. split; [exact Es|eapply nth_error_In; eauto]. }
+  destruct (N.eqb_spec key 5) as [->|N5].
+  { (* redeemers *)
+    apply in_map_iff in Hc. destruct Hc as ([rk r] & <- & Hr). cbn [fst snd comp_range].
+    apply orb_true_iff in Hs1. destruct Hs1 as [Ha|Hm].
+    - destruct v as [| | | | | |fa rs| | | | ]; try discriminate.
+      rewrite (redeemer_offsets_arr fa rs abs Hwv Sv Ha) in Hr. apply spec_run_in in Hr.
+      destruct Hr as (m & e & Hme & Hr). unfold red_arr_spec in Hr.
+      destruct (red_elem e) as [[[[p i] o] x]|] eqn:Ee; [|destruct Hr]. destruct Hr as [Hr|[]]. injection Hr as <- <-.
+      exists x. split.
+      + split; [|reflexivity]. cbn [fst].
+        pose proof (located_arr_child _ _ _ _ _ _ Lv Hme) as Le.
+        destruct e as [| | | | | |fr xs| | | | ]; try discriminate.
+        destruct xs as [|[fp p'| | | | | | | | | | ] [|[fi i'| | | | | | | | | | ] [|x' rest]]]; try discriminate.
+        cbn [red_elem] in Ee. remember (length (enc (UInt fp p'))) as lp. remember (length (enc (UInt fi i'))) as li.
+        injection Ee as <- <- <- <-.
+        pose proof (located_arr_child _ _ fr _ 2 x' Le eq_refl) as Lx. unfold child_off in *. cbn [firstn flat_map] in Lx.
+        rewrite !app_length in Lx. cbn [length] in Lx. eapply located_eq; [|exact Lx]. subst lp li. lia.
+      + exists f, kvs, j, fk, 5%N, (Arr fa rs). repeat split; auto. left. exists fa, rs, e, p, i, o.
+        repeat split; auto. eapply nth_error_In; eauto.
+    - destruct v as [| | | | | | |fa es| | | ]; try discriminate.
+      rewrite (redeemer_offsets_map fa es abs Hwv Sv Hm) in Hr. apply spec_run_in in Hr.
+      destruct Hr as (m & e & Hme & Hr). unfold red_map_spec in Hr.
+      destruct (red_entry e) as [[[[p i] o] x]|] eqn:Ee; [|destruct Hr]. destruct Hr as [Hr|[]]. injection Hr as <- <-.
+      exists x. split.
+      + split; [|reflexivity]. cbn [fst]. destruct e as [k' v'].
+        pose proof (located_map_value _ _ _ _ _ _ _ Lv Hme) as Le.
+        destruct k' as [| | | | | |fk' ks| | | | ]; try discriminate.
+        destruct ks as [|[fp p'| | | | | | | | | | ] [|[fi i'| | | | | | | | | | ] [|? ?]]]; try discriminate.
+        destruct v' as [| | | | | |fv vs| | | | ]; try discriminate. destruct vs as [|x' vrest]; try discriminate.
+        cbn [red_entry] in Ee. remember (length (enc (Arr fk' [UInt fp p'; UInt fi i']))) as lk.
+        injection Ee as <- <- <- <-.
+        pose proof (located_arr_child _ _ fv _ 0 x' Le eq_refl) as Lx. unfold child_off, entry_off in *. cbn [firstn flat_map length] in Lx.
+        eapply located_eq; [|exact Lx]. subst lk. lia.
+      + exists f, kvs, j, fk, 5%N, (Map fa es). repeat split; auto. right. exists fa, es, e, p, i, o.
+        repeat split; auto. eapply nth_error_In; eauto. }
+  (* scripts *)
+  destruct (N.eqb_spec key 1) as [->|N1]; [apply (Scripts 0%N eq_refl Hc)|].
+  destruct (N.eqb_spec key 3) as [->|N3]; [apply (Scripts 1%N eq_refl Hc)|].
+  destruct (N.eqb_spec key 6) as [->|N6]; [apply (Scripts 2%N eq_refl Hc)|].
+  destruct (N.eqb_spec key 7) as [->|N7]; [apply (Scripts 3%N eq_refl Hc)|].
+  destruct (N.eqb_spec key 8) as [->|N8]; [apply (Scripts 4%N eq_refl Hc)|].
+  destruct Hc.
+Qed.
